@@ -164,6 +164,10 @@ def site_program(site, payloads):
         elif site == "bind-var":
             decl.append(f"integer, bind(c, name={L}) :: {n}")
             checks.append(("module/cm.html", f"variable-{n}", f"name={L}"))
+        elif site == "bind-stmt":
+            # the BIND attribute given by a separate statement
+            decl += [f"integer :: {n}", f"bind(c, name={L}) :: {n}"]
+            checks.append(("module/cm.html", f"variable-{n}", f"name={L}"))
         elif site == "len-expr":
             decl.append(f"character(len=len({L})) :: {n}")
             checks.append(("module/cm.html", f"variable-{n}", f"len({L})"))
@@ -236,7 +240,7 @@ def site_program(site, payloads):
     return {"src/cm.f90": "\n".join(src) + "\n"}, checks
 
 
-SITES = ["initial-array2", "initial-concat", "initial-module", "initial-local", "initial-component", "initial-namelist", "bind-proc", "bind-var", "len-expr", "kind-expr", "dim-expr",
+SITES = ["bind-stmt", "initial-array2", "initial-concat", "initial-module", "initial-local", "initial-component", "initial-namelist", "bind-proc", "bind-var", "len-expr", "kind-expr", "dim-expr",
 ]
 EXPR_SITES = ["expr-dim-result", "expr-dim-arg", "expr-dim-module", "expr-dim-component", "expr-dimattr-result", "expr-kind-result"]
 # expressions (no character literals) for array bounds / kind selectors; `nn` is a module parameter
